@@ -82,12 +82,26 @@ class C05:
                     kinds.add("bad-length")
                 if "(%s[0])" % ret in txt and not pol:
                     kinds.add("not-file-like")
+                # two malformed-answer tests merged with `or`: the arm is taken when either fails
+                if pol and " or " in txt:
+                    if "not isinstance(%s, tuple)" % ret in txt:
+                        kinds.add("not-tuple")
+                    if "(%s[0])" % ret in txt and "not " in txt.split("(%s[0])" % ret)[0].split(" or ")[-1]:
+                        kinds.add("not-file-like")
         rep.check("C05.V4", "resolver|malformed", sc, kinds == {"not-tuple", "bad-length", "not-file-like"}, "three malformed-answer arms -> None", "malformed-answer arms present: %s" % sorted(kinds))
-        fb = [n for n in ctx.own_nodes(sc) if isinstance(n, ast.Assign) and isinstance(n.targets[0], ast.Name) and n.targets[0].id == ret and isinstance(n.value, ast.Tuple)]
+        fb = []     # (assignment, tuple value, extra facts of a conditional expression's arm)
+        for n in ctx.own_nodes(sc):
+            if isinstance(n, ast.Assign) and isinstance(n.targets[0], ast.Name) and n.targets[0].id == ret:
+                if isinstance(n.value, ast.Tuple):
+                    fb.append((n, n.value, set()))
+                elif isinstance(n.value, ast.IfExp) and isinstance(n.value.body, ast.Tuple) and isinstance(n.value.orelse, ast.Tuple):
+                    from sa.guards import literals as _lits
+                    fb.append((n, n.value.body, _lits(n.value.test, True)))
+                    fb.append((n, n.value.orelse, _lits(n.value.test, False)))
         good = bool(fb)
-        for n in fb:
-            facts = ctx.facts_at(sc, n)
-            elts = n.value.elts
+        for n, tup, extra in fb:
+            facts = set(ctx.facts_at(sc, n)) | extra
+            elts = tup.elts
             keep_true = len(elts) == 2 and isinstance(elts[1], ast.Constant) and elts[1].value is True
             m = pat.match("%s[$I]" % fhs, elts[0]) if len(elts) == 2 else None
             idx = m["I"].value if m and isinstance(m["I"], ast.Constant) else None
@@ -259,9 +273,22 @@ class C05:
             return n.kind == "test" and any(isinstance(c, ast.Call) and any(isinstance(x, ast.Name) and x.id == ret for a in c.args for x in ast.walk(a)) for c in ast.walk(n.ast))
         checks = [n for n in g.nodes if inspects(n)]
         default = [n for n in g.nodes if cfg_root(n) is not None and isinstance(cfg_root(n), ast.Assign) and isinstance(cfg_root(n).targets[0], ast.Name)
-                   and cfg_root(n).targets[0].id == ret and isinstance(cfg_root(n).value, ast.Tuple)]
-        if len(checks) < 3 or not default:
-            raise AnalysisError("__safe_call_resolver: shape checks (%d) / default assignment (%d) not found" % (len(checks), len(default)))
+                   and cfg_root(n).targets[0].id == ret and (isinstance(cfg_root(n).value, ast.Tuple) or (isinstance(cfg_root(n).value, ast.IfExp)
+                                                                                                           and isinstance(cfg_root(n).value.body, ast.Tuple)))]
+        n_checks = sum(sum(1 for c in ast.walk(n.ast) if isinstance(c, ast.Call) and any(isinstance(x, ast.Name) and x.id == ret for a in c.args for x in ast.walk(a))) for n in checks)
+        if n_checks < 3 or not default:
+            raise AnalysisError("__safe_call_resolver: shape checks (%d) / default assignment (%d) not found" % (n_checks, len(default)))
+        # an answer that is thrown away (`ret = None`) is replaced by the default before it is returned
+        drops = [n for n in g.nodes if cfg_root(n) is not None and isinstance(cfg_root(n), ast.Assign) and isinstance(cfg_root(n).targets[0], ast.Name)
+                 and cfg_root(n).targets[0].id == ret and isinstance(cfg_root(n).value, ast.Constant) and cfg_root(n).value.value is None]
+        for dn in drops:
+            restore = [n for n in g.nodes if n is not dn and cfg_root(n) is not None and isinstance(cfg_root(n), ast.Assign) and isinstance(cfg_root(n).targets[0], ast.Name)
+                       and cfg_root(n).targets[0].id == ret]       # any later store to the answer ends this None
+            p0 = find_path(g, [dn.id], lambda n: n in rets, avoid=lambda n: n in default or n in restore, follow=NORMAL)      # path-sensitive: `ret is None` holds after the store
+            rep.check("C05.V14", "__safe_call_resolver|dropped-answer-gets-default@%d" % (drops.index(dn) + 1), ctx.line(sc, cfg_root(dn)), p0 is None,
+                      "a dropped answer reaches the remote-wins default before the return",
+                      "`%s = None` can reach `return %s` without passing the remote-wins default: a malformed answer makes __safe_call_resolver return None and the caller "
+                      "unpacks it" % (ret, ret), witness=describe_path(p0) if p0 else None)
         pth = find_path(g, [c.id for c in call], lambda n: n in rets, avoid=lambda n: n in checks or n in default, follow=NORMAL)
         rep.check("C05.V14", "__safe_call_resolver|checked-answer", ctx.line(sc, rets[0].ast), pth is None, "every returned answer passed the shape checks or is the default",
                   "an answer of the resolver can be returned unchecked: a falsy non-None value ((), 0, False, '') skips the shape checks and is not replaced by the default - "
@@ -323,6 +350,11 @@ def run(ctx: Ctx, rep: Report, tier: str):
     from rules.common import refresh_covers_both_sides
     rep.rule("C05.V19", "a conflict is seen even when only one side's event arrived: the pre-sync refresh re-reads the quiet side too, so hash_conflict() can fire (C14.W1)", 1)
     section(rep, lambda: refresh_covers_both_sides(ctx, rep, "C05.V19"))
+    from rules.common import derived_local_is_recomputed
+    from rules.decisions import DECISION_FUNCTIONS as _DF
+    rep.rule("C05.V20", "the loser's new name is tried afresh on every retry: in every loop of the engine a local derived from a local the loop reassigns is recomputed inside the "
+             "loop (conflict_rename: the path is built from the name of THIS round)", 100)
+    section(rep, lambda: derived_local_is_recomputed(ctx, rep, "C05.V20", _DF))
     from rules.decisions import decision_table, table_sites
     rep.rule("C05.DT", "decision table (rules/decisions.json) of conflict resolution: resolve_conflict, the merge upload, the resolver call and its validation, hash-conflict handling, conflict renaming, ResolveFile: for every function and every action shape (an impure call with the parameters it passes, a store to an "
              "attribute or item, a delete, a returned constant, a yield, a raise) the set of states - over the function's guard atoms - in which the action is taken "
